@@ -1,10 +1,15 @@
 #!/bin/sh
-# tools/run_all.sh [quick|thorough]: run every check on /repo as it is, summarise
-tier=${1:-quick}
-cd /verif
-for i in 01 02 03 04 05 06 07 08 09 10 11 12 13 14 15 16 17 18 19 20; do
+# tools/run_all.sh [quick|thorough] [ids...]: run checks on the repository as it is, summarise
+tier=${1:-quick}; shift
+HERE="$(cd "$(dirname "$0")/.." && pwd)"
+cd "$HERE"
+ids="$*"
+[ -z "$ids" ] && ids="C01 C02 C03 C04 C05 C06 C07 C08 C09 C10 C11 C12 C13 C14 C15 C16 C17 C18 C19 C20"
+mkdir -p /tmp/runall_$$
+for id in $ids; do
   s=$(date +%s)
-  ./check C$i --tier $tier > /tmp/runall_C$i.log 2>&1; rc=$?
+  ./check $id --tier $tier > /tmp/runall_$$/$id.log 2>&1; rc=$?
   e=$(date +%s)
-  echo "C$i rc=$rc $((e-s))s $(grep -E '^C[0-9]+ tier' /tmp/runall_C$i.log | cut -c1-150)"
+  echo "$id rc=$rc $((e-s))s $(grep -E '^C[0-9]+ tier' /tmp/runall_$$/$id.log | cut -c1-170)"
+  [ $rc -ne 0 ] && grep -E "^(VIOLATION|INCONCLUSIVE)" /tmp/runall_$$/$id.log | cut -c1-300 | head -5
 done
